@@ -1100,6 +1100,31 @@ def run(rep):
                                'scipy.integrate.quad / periodic trapezoid as reference integrators (oracle streams only)', 'harness/props/C08.py'])
 
 
+PROVIDER_BASES = {'hybrid-free-pole': ('PWNormGPD', 'HybridFreePoleCFF'), 'hybrid-fixed-pole': ('PWNormGPD', 'HybridFixedPoleCFF'),
+                  'hybrid-base': ('PWNormGPD', 'HybridCFF'), 'dispersive': ('DispersionFixedPoleCFF',),
+                  'mellin-barnes': ('PWNormGPD', 'MellinBarnesCFF')}
+
+
 def replay(path):
+    import json
+    d = json.load(open(path))
     print(open(path).read()[:4000])
+    if 'provider' in d and 'expected' in d and 'kinematics' in d:
+        # re-evaluate the case of the XGAMMA substitution stream on the current tree: exit 1 while it still fails
+        import gepard as g
+        kind, pset = d['provider'].split('/')
+        eff = g.eff.DipoleEFF if pset in ('KM10', 'KM09a') else g.eff.KellyEFF
+        bases = (eff,) + tuple(getattr(g, b) for b in PROVIDER_BASES[kind]) + (getattr(g, d['set']),)
+        th = type('Replay', bases, {})()
+        th.parameters.update(d['parameters'])
+        kw = d['kinematics']
+        code = float(th.XGAMMA(g.DataPoint(**kw)))
+        pt = g.DataPoint(**kw)
+        m = {nm: float(getattr(th, nm)(pt)) for nm in ['ReH', 'ImH', 'ReE', 'ImE', 'ReHt', 'ImHt', 'ReEt', 'ImEt']}
+        m['F1'] = m['F2'] = 0.0
+        want = float(B.theory(d['set'], m).XGAMMA(g.DataPoint(**kw)))
+        bad = abs(code - want) > 1e-9 * max(abs(want), 1e-300)
+        print('replayed on the current tree: XGAMMA(t) = %r, constant-CFF theory with the reported values = %r -> %s'
+              % (code, want, 'STILL FAILS' if bad else 'holds now'))
+        return 1 if bad else 0
     return 0
